@@ -9,7 +9,7 @@ CORRESPONDENCE = ("Model/Transport.lean (sequential pool: acquire with NOOP prob
                   "silent peer (`stallAtEnd`, counter of reads that waited) vs SmtpTransport and tokio AsyncSmtpTransport with a timeout T "
                   "against a multi-connection scripted peer that goes silent at a chosen point")
 RULE = ("pool cases: the peer goes silent at every position of the dialogue (before the greeting, after EHLO, MAIL, each RCPT, DATA, "
-        "end-of-data, on the NOOP probe of a pooled connection), before a reply or in the middle of a reply line, T in {60,120,250} ms, "
+        "end-of-data, on the NOOP probe of a pooled connection), before a reply or in the middle of a reply line, or stops reading while a 16 MiB message is being written (wstall), T in {60,120,250} ms, "
         "1..2 recipients, sync and tokio; the send after the stalled one goes to a responsive connection. Compared: result class of every "
         "send, every connection's transcript, and (oracle) the elapsed time against (waits+2)*T+1.5s and the error's is_timeout(). "
         "Non-trivial = a stall is reached; distinct = distinct case lines.")
@@ -53,6 +53,10 @@ def gen(tier, rng):
                 # the NOOP probe of a pooled connection meets a silent peer
                 cases.append(pool_case(client, t, 1, True, 2, "a@b.c", to, b"hello\r\n", [h, h]))
                 cases.append(pool_case(client, t, 1, True, 3, "a@b.c", to, b"hello\r\n", [h, h + [step(b"250 ok\r\n")] + h[2:]]))
+    # the peer stops reading after 354 and the message is bigger than the socket buffers: the client blocks in a write
+    for t in ts:
+        for client in "sa":
+            cases.append(f"wstall\t{client}\t{t}\t16")
     # no stall at all: must not be slowed down
     for client in "sa":
         cases.append(pool_case(client, 200, 1, False, 2, "a@b.c", ["x@y.z"], b"m\r\n", [happy(1) + [step(b"250 ok\r\n")] + happy(1)[2:]]))
@@ -60,7 +64,8 @@ def gen(tier, rng):
 
 
 def nontrivial(case):
-    return case.split("\t")[4] == "1"
+    f = case.split("\t")
+    return f[0] == "wstall" or f[4] == "1"
 
 
 def shrinkable(case):
@@ -71,12 +76,17 @@ def distribution(cases):
     d = {}
     for c in cases:
         f = c.split("\t")
+        if f[0] == "wstall":
+            d["blocked_write"] = d.get("blocked_write", 0) + 1
+            continue
         for k in ("client_" + f[1], "T_" + f[2], "nsends_" + f[5]):
             d[k] = d.get(k, 0) + 1
     return d
 
 
 def _async_stall(f, o, v):
+    if f[0] == "wstall":
+        return f[1] == "a" and "send-blocked-far-beyond-the-timeout" in v
     return f[0] == "pool" and f[1] == "a" and f[4] == "1" and "send-blocked-far-beyond-the-timeout" in v
 
 
